@@ -46,7 +46,7 @@ theorem odsRow_getElem? {k : Nat} {ods : List Bytes} {r c : Nat} (hc : c < k) :
 
 /-- a row of the extension: `data ++ enc data` is the list of its `2k` cells -/
 theorem row_cells {k : Nat} (data par : List Bytes) (hd : data.length = k) (hp : par.length = k)
-    (f : Nat → Bytes) (h1 : ∀ c, c < k → f c = data.getD c []) (h2 : ∀ c, k ≤ c → f c = par.getD (c - k) []) :
+    (f : Nat → Bytes) (h1 : ∀ c, c < k → f c = data.getD c []) (h2 : ∀ c, k ≤ c → c < 2 * k → f c = par.getD (c - k) []) :
     data ++ par = (List.range (2 * k)).map f := by
   apply List.ext_getElem?
   intro c
@@ -56,7 +56,7 @@ theorem row_cells {k : Nat} (data par : List Bytes) (hd : data.length = k) (hp :
     rw [List.getElem?_eq_getElem (by omega)]; rfl
   · by_cases hc2 : c < 2 * k
     · rw [List.getElem?_append_right (by omega), List.getElem?_map, List.getElem?_range hc2]
-      simp only [Option.map_some, h2 c (by omega), List.getD_eq_getElem?_getD, hd]
+      simp only [Option.map_some, h2 c (by omega) hc2, List.getD_eq_getElem?_getD, hd]
       rw [List.getElem?_eq_getElem (by omega)]; rfl
     · rw [List.getElem?_eq_none (by simp; omega), List.getElem?_eq_none (by simp; omega)]
 
@@ -84,7 +84,7 @@ theorem extendRaw_grid {enc : List Bytes → List Bytes} {k : Nat} {ods : List B
     · intro c hc
       simp only [extCell, hr', hc, ↓reduceIte, List.getD_eq_getElem?_getD]
       rw [odsRow_getElem? (k := k) (ods := ods) (r := r) hc]
-    · intro c hc
+    · intro c hc _
       have : ¬ c < k := by omega
       simp only [extCell, hr', this, ↓reduceIte, odsRow]
   · -- bottom half
@@ -104,7 +104,7 @@ theorem extendRaw_grid {enc : List Bytes → List Bytes} {k : Nat} {ods : List B
       have hnr : ¬ k + r < k := by omega
       simp only [extCell, hnr, hc, ↓reduceIte, Nat.add_sub_cancel_left]
       simp [q2Row, List.getD_eq_getElem?_getD, List.getElem?_map, List.getElem?_range hc]
-    · intro c hc
+    · intro c hc _
       have hnr : ¬ k + r < k := by omega
       have : ¬ c < k := by omega
       simp only [extCell, hnr, this, ↓reduceIte, Nat.add_sub_cancel_left]
